@@ -152,7 +152,22 @@ func (p *Program) ifaceContract(cc *ssa.CallCommon) *Contract {
 	if !ok || named.Obj().Pkg() == nil {
 		return nil
 	}
-	return p.CS.Funcs[named.Obj().Pkg().Path()+".("+named.Obj().Name()+")."+cc.Method.Name()]
+	if c := p.CS.Funcs[named.Obj().Pkg().Path()+".("+named.Obj().Name()+")."+cc.Method.Name()]; c != nil {
+		return c
+	}
+	// the method may be declared by an interface embedded in the static type
+	it, ok := named.Underlying().(*types.Interface)
+	if !ok {
+		return nil
+	}
+	for i := 0; i < it.NumEmbeddeds(); i++ {
+		if en, ok := it.EmbeddedType(i).(*types.Named); ok && en.Obj().Pkg() != nil {
+			if c := p.CS.Funcs[en.Obj().Pkg().Path()+".("+en.Obj().Name()+")."+cc.Method.Name()]; c != nil {
+				return c
+			}
+		}
+	}
+	return nil
 }
 
 func (p *Program) isExternal(fn *ssa.Function) bool {
